@@ -107,13 +107,15 @@ def run(ctx):
     n = ctx.budget(30, 400)
     for i in range(n):
         rng = ctx.case_rng('G-det', i)
-        # i % 6: contended priority runs, mixed runs, saturated runs, and (single-operator containers) pipelines with
+        # i % 7: contended priority runs, mixed runs, saturated runs, and (single-operator containers) pipelines with
         # sibling operators of which some are killed and retried while others become ready / parallel chains
         rec = [lambda: S.gen_preempt(rng, gen='G-det'), lambda: S.gen_sim(rng, gen='G-det'),
                lambda: S.gen_saturate(rng, rng.choice(['overbook', 'overbook', 'priority-pool', 'priority']), gen='G-det'),
                lambda: S.gen_abandon(rng, gen='G-det', algo=rng.choice(['priority', 'priority', 'overbook'])),
                lambda: S.gen_branches(rng, rng.choice(['priority', 'overbook', 'naive']), gen='G-det'),
-               lambda: S.gen_failready(rng, rng.choice(['priority', 'overbook']), gen='G-det')][i % 6]()
+               lambda: S.gen_failready(rng, rng.choice(['priority', 'overbook']), gen='G-det'),
+               # two suspensions of one pool in one round, ending together, with competition afterwards
+               lambda: S.gen_twin_preempt(rng, gen='G-det')][i % 7]()
         case, run_ = S.drive(rec, MASK)
         case['obs_raw'] = list(case['obs'])
         SP.stats_of(run_, st)
